@@ -9,7 +9,7 @@
  *              (B) every "skeleton" (any subset of the keywords in order, one alien inserted anywhere, one
  *              adjacent pair swapped) spelled with every combination of 8 forms per mnemonic (short, long,
  *              long-letter, short+"1", long+letter, short+letter, long+"012", long+"7") x colon x '?' x 3 cases.
- *              (C) every numeric-suffix keyword of a correctly spelled header followed by each of 23 suffix texts (leading
+ *              (C) every numeric-suffix keyword of a correctly spelled header followed by each of 27 suffix texts (leading
  *              zeros, digits 8/9, sign, blank, tab, letter, radix prefix, exponent);
  *   a second vocabulary {SYNChronization, W3GPp, RX_Level, IEEE488, W, RX}: all singles and ordered pairs in 6 shapes.
  * Oracle = ref_pattern.h.  Compared: matchCommand (numbers array pre-filled with a sentinel), SCPI_Match,
@@ -278,7 +278,7 @@ static void enum_skeleton(const rp_pattern_t * rp, const char * pattern, int nfo
 /* (C) suffix texts: the header spells every keyword of the pattern correctly (target keyword short and long, the others short),
  * and the target numeric-suffix keyword is followed by each of these texts: digit strings with leading zeros and with the digits
  * 8 and 9 (decimal, not octal), and texts that are not digit strings (sign, blank, tab, letter, radix prefix, exponent) */
-static const char * suffix_texts[] = {"0", "00", "08", "09", "010", "0019", "007", "0100", "10", "2147483647", "+5", "-5", " 5", "\t5", "5 ", "5+", "5a", "a5", "0x10", "1e2", "5.", "#5", "_5"};
+static const char * suffix_texts[] = {"0", "00", "08", "09", "010", "0019", "007", "0100", "10", "2147483647", "00000000007", "0000000000000", "0000000000042", "000002147483647", "+5", "-5", " 5", "\t5", "5 ", "5+", "5a", "a5", "0x10", "1e2", "5.", "#5", "_5"};
 #define NSUFFIX ((int) (sizeof suffix_texts / sizeof suffix_texts[0]))
 static void enum_suffix(const rp_pattern_t * rp, const char * pattern, int api) {
     int j, lf, si, flags, k;
